@@ -93,7 +93,7 @@ pub fn all() -> Vec<Prop> {
             id: "C05",
             run: props::minmax::run_c05,
             replayers: props::minmax::replayers,
-            rule: "proptest: element type (i32, u8, i64, f32, f64) x 0-4-D shape incl. zero-length axes and 0-D x layout (view into a sentinel parent: permuted/stepped/reversed/padded) x ownership (view, owned C, owned F, ArcArray, CowArray borrowed/owned) x static/dynamic dimension x values (ties, signed zeros, infinities, one NaN at first/middle/last position, several NaNs). One case in ten (1-3-D) has more than 1000 elements. Oracle: independent scan of the logical data: Ok(idx) => a[idx] <= (>=) every element, *min() == a[argmin()] under IEEE ==, EmptyInput <=> no elements, UndefinedOrder <=> a NaN is present (non-empty). The returned index is not required to be the first extremum. Distinct by hash. Non-trivial: >= 2 elements and (a tie for the extremum, a NaN, or a non-standard layout/ownership).",
+            rule: "proptest: element type (i32, u8, i64, f32, f64) x 0-4-D shape incl. zero-length axes and 0-D x layout (view into a sentinel parent: permuted/stepped/reversed/padded) x ownership (view, owned C, owned F, ArcArray, CowArray borrowed/owned) x static/dynamic dimension x values (ties, signed zeros, infinities, one NaN at first/middle/last position, several NaNs). One case in ten (1-3-D) has more than 1000 elements. A further stream (\"minmax-long\") uses 1000..20000/70000 elements (lengths around powers of two and block sizes, 1-3-D) with a unique extremum or a single NaN planted at the first / last / middle / a random position. Oracle: independent scan of the logical data: Ok(idx) => a[idx] <= (>=) every element, *min() == a[argmin()] under IEEE ==, EmptyInput <=> no elements, UndefinedOrder <=> a NaN is present (non-empty). The returned index is not required to be the first extremum. Distinct by hash. Non-trivial: >= 2 elements and (a tie for the extremum, a NaN, or a non-standard layout/ownership).",
             assumptions: COMMON_ASSUMPTIONS,
             profiles_quick: BOTH,
             profiles_thorough: BOTH,
@@ -148,7 +148,7 @@ pub fn all() -> Vec<Prop> {
             id: "C10",
             run: props::pairs::run_c10,
             replayers: props::pairs::replayers_c10,
-            rule: "proptest: f64/f32 arrays of 1-3 dimensions, p and q non-negative finite (k/4096, zeros, m 2^e), normalised or not, independent layouts for p and q, NaN placements in 10% of the cases; whole-array classes with entries 2^-300..2^-900 (|ln p| in the hundreds) and with q within 2^-20 of 1. A further stream (\"ent-long\") uses 300..10000/20000 elements (1-D or a long axis times 1..4). Oracle: -sum x ln x, -sum p ln q, -sum p ln(q/p) by f64 libm with compensated summation, zero-p terms contributing exactly 0 (so p=0 with q=NaN or q=0 stays finite), budget 2(2n+8)u sum|terms| (KL: + sum|p|); p>0 with q=0 => +inf; result NaN <=> a NaN in a contributing term; identities KL(p,p) == 0 (NaN when p holds a NaN), p against a reversed-axes view of its own buffer for shapes that read the same backwards, |H(p,q) - H(p) - KL(p,q)| within the summed budgets, KL >= -tol and H(p) <= ln n + tol for normalised input (normalisation defect charged). Distinct by hash. Non-trivial: >= 3 elements, resolving, and (a zero in p or q, or different layouts).",
+            rule: "proptest: f64/f32 arrays of 1-3 dimensions, p and q non-negative finite (k/4096, zeros, m 2^e), normalised or not, independent layouts for p and q, NaN placements in 10% of the cases; whole-array classes with entries 2^-300..2^-900 (|ln p| in the hundreds) and with q within 2^-20 of 1. A further stream (\"ent-long\") uses 300..40000/70000 elements (1-D or a long axis times 1..4). Oracle: -sum x ln x, -sum p ln q, -sum p ln(q/p) by f64 libm with compensated summation, zero-p terms contributing exactly 0 (so p=0 with q=NaN or q=0 stays finite), budget 2(2n+8)u sum|terms| (KL: + sum|p|); p>0 with q=0 => +inf; result NaN <=> a NaN in a contributing term; identities KL(p,p) == 0 (NaN when p holds a NaN), p against a reversed-axes view of its own buffer for shapes that read the same backwards, |H(p,q) - H(p) - KL(p,q)| within the summed budgets, KL >= -tol and H(p) <= ln n + tol for normalised input (normalisation defect charged). Distinct by hash. Non-trivial: >= 3 elements, resolving, and (a zero in p or q, or different layouts).",
             assumptions: NUM_ASSUMPTIONS,
             profiles_quick: BOTH,
             profiles_thorough: BOTH,
@@ -159,7 +159,7 @@ pub fn all() -> Vec<Prop> {
             id: "C11",
             run: props::hist::run_c11,
             replayers: props::hist::replayers_c11,
-            rule: "proptest histories: grid of 1-3 axes, each axis an arbitrary edge list (unsorted, duplicates, 0/1/2..8 edges; i32, i64, N64; handed over as a Vec or as an owned Array1 that was sliced / inverted in place), 0..60 (quick) / 120 (thorough) add_observation operations with coordinates drawn from the edges themselves, their neighbours, below the first and beyond the last edge. A further stream (\"hist-long\") runs histories of up to 3000/6000 observations. Model: dictionary index-tuple -> count with bin lookup by linear scan. After EVERY step counts() is compared with the model at every index, its shape with grid.shape(), and the return value with the model (BinNotFound <=> no bin; a rejected insert changes nothing). Every second insert hands the point over as a reversed (stride -1) view. Then the same observations as a row-major matrix, a column-major matrix, a matrix view with a reversed column axis and in a permuted order through HistogramExt::histogram. Distinct by hash. Non-trivial: >= 2 axes with different bin counts, at least one accepted, one rejected and one on-an-edge observation.",
+            rule: "proptest histories: grid of 1-3 axes, each axis an arbitrary edge list (unsorted, duplicates, 0/1/2..8 edges; i32, i64, N64; handed over as a Vec or as an owned Array1 that was sliced / inverted in place), 0..60 (quick) / 120 (thorough) add_observation operations with coordinates drawn from the edges themselves, their neighbours, below the first and beyond the last edge. A further stream (\"hist-long\") runs histories of up to 3000/6000 observations. \"hist-wide\" runs histories on a grid whose first axis has 255..1025 edges (around powers of two) with observations on / next to / beyond the last and first edge; \"hist-matrix-long\" calls HistogramExt::histogram on matrices of 20000..140000/200000 rows (row counts around 32768, 65536, 131072; all rows, all but every 1000th, the first 65536 or none of them in one bin), rows expanded from (rows, class, seed) inside the check. Model: dictionary index-tuple -> count with bin lookup by linear scan. After EVERY step counts() is compared with the model at every index, its shape with grid.shape(), and the return value with the model (BinNotFound <=> no bin; a rejected insert changes nothing). Every second insert hands the point over as a reversed (stride -1) view. Then the same observations as a row-major matrix, a column-major matrix, a matrix view with a reversed column axis and in a permuted order through HistogramExt::histogram. Distinct by hash. Non-trivial: >= 2 axes with different bin counts, at least one accepted, one rejected and one on-an-edge observation.",
             assumptions: COMMON_ASSUMPTIONS,
             profiles_quick: BOTH,
             profiles_thorough: BOTH,
@@ -181,7 +181,7 @@ pub fn all() -> Vec<Prop> {
             id: "C13",
             run: props::hist::run_c13,
             replayers: props::hist::replayers_c13,
-            rule: "Enumeration: every sequence of length <= 6 (quick) / 7 (thorough) over the alphabet {0,2,..,2L} as edge input (every multiset and every order; via From<Vec> and From<Array1>, the owned Array1 being built from a Vec, sliced in place with a step, inverted in place or sliced in place to an offset sub-range), probed with every integer in -1..2L+1 (below, on, between, above). Random: i64/i32/u8/N64 edge lists up to 200 values, probes on and next to every edge; grids of 1-3 axes with every accessor (ndim, shape, projections, index_of, index incl. out-of-range tuples). A further stream (\"edges-long\") uses 300..5000/10000 edge values (unsorted with few / many duplicates, increasing, decreasing) probed at both extremes, at 60 random positions and around 20 of the edges. Oracle: BTreeSet for the edges, linear scan e_i <= v < e_(i+1) for lookup, mutual consistency of indices_of / index_of / range_of / index. Non-trivial: >= 3 distinct edges and a probe strictly inside or on an interior edge (edges); >= 2 axes with >= 3 edges each and a point inside (grid).",
+            rule: "Enumeration: every sequence of length <= 6 (quick) / 7 (thorough) over the alphabet {0,2,..,2L} as edge input (every multiset and every order; via From<Vec> and From<Array1>, the owned Array1 being built from a Vec, sliced in place with a step, inverted in place or sliced in place to an offset sub-range), probed with every integer in -1..2L+1 (below, on, between, above). Random: i64/i32/u8/N64 edge lists up to 200 values, probes on and next to every edge; grids of 1-3 axes with every accessor (ndim, shape, projections, index_of, index incl. out-of-range tuples). A further stream (\"edges-long\") uses 300..5000/10000 edge values (unsorted with few / many duplicates, increasing, decreasing) probed at both extremes, at 60 random positions and around 20 of the edges. Enumeration \"edges-huge\": edge collections of 2^k + d values (k = 8..21/22, d = -1, 0, 1, 2; edges 3i+1, increasing or, up to 2^16, decreasing), every value 3i, 3i+1, 3i+2 looked up against the arithmetic model. Oracle: BTreeSet for the edges, linear scan e_i <= v < e_(i+1) for lookup, mutual consistency of indices_of / index_of / range_of / index. Non-trivial: >= 3 distinct edges and a probe strictly inside or on an interior edge (edges); >= 2 axes with >= 3 edges each and a point inside (grid).",
             assumptions: COMMON_ASSUMPTIONS,
             profiles_quick: BOTH,
             profiles_thorough: BOTH,
@@ -247,7 +247,7 @@ pub fn all() -> Vec<Prop> {
             id: "C19",
             run: props::order::run_c19,
             replayers: props::order::replayers,
-            rule: "proptest lanes of every Ord element type (values as in C01; 64-bit integers below 2^52) with 1..13 boundary-constructed q plus 0 and 1, sorted; for each of the 5 strategies: non-decreasing in q, Q(0)=min, Q(1)=max, within [min,max]; Lower <= Nearest/Midpoint/Linear <= Higher at equal q; all five equal when (N-1)q is integral (required when the IEEE product and the exact rational product agree on that, since C01 accepts either reading of the documented index); equal results on a generated permutation of the lane; Lower/Higher/Nearest commute with a generated strictly increasing relabelling table. Float Midpoint/Linear order relations get a slack of 2 ulp of the largest lane magnitude. A further stream (\"order-long\") uses lanes of 129..3000/5000 elements (lengths around powers of two and block sizes). Enumeration: ALL permutations of a distinct and a tied i32 lane of length <= 7 (quick) / 8 (thorough). Distinct by hash (random) / by construction (permutations). Non-trivial: >= 3 distinct values and (a q pair straddling/touching an index boundary, or a non-identity permutation, or a relabelling).",
+            rule: "proptest lanes of every Ord element type (values as in C01; 64-bit integers below 2^52) with 1..13 boundary-constructed q plus 0 and 1, sorted; for each of the 5 strategies: non-decreasing in q, Q(0)=min, Q(1)=max, within [min,max]; Lower <= Nearest/Midpoint/Linear <= Higher at equal q; all five equal when (N-1)q is integral (required when the IEEE product and the exact rational product agree on that, since C01 accepts either reading of the documented index); equal results on a generated permutation of the lane; Lower/Higher/Nearest commute with a generated strictly increasing relabelling table. Float Midpoint/Linear order relations get a slack of 2 ulp of the largest lane magnitude. Two further streams: \"order-long\" (lanes of 129..3000/5000 elements, lengths around powers of two and block sizes; half of the lanes decreasing or with the maximum first) and \"order-many-q\" (one bulk call with 64..200 quantiles on lanes of 2..300 elements). Enumeration: ALL permutations of a distinct and a tied i32 lane of length <= 7 (quick) / 8 (thorough). Distinct by hash (random) / by construction (permutations). Non-trivial: >= 3 distinct values and (a q pair straddling/touching an index boundary, or a non-identity permutation, or a relabelling).",
             assumptions: COMMON_ASSUMPTIONS,
             profiles_quick: BOTH,
             profiles_thorough: BOTH,
